@@ -15,6 +15,9 @@
 package main
 
 import (
+	"context"
+	"errors"
+	"github.com/thushan/olla/internal/core/domain"
 	"os"
 	"runtime"
 	"strings"
@@ -32,7 +35,10 @@ const (
 	opFail = -1
 	opSucc = -2
 	opAsk  = -3
-	hurl   = "http://verif.invalid/health"
+	// lifecycle kind only
+	opUnify          = -4
+	opUnifyCancelled = -5
+	hurl             = "http://verif.invalid/health"
 )
 
 type breaker interface {
@@ -92,6 +98,62 @@ func (b unifierB) Obs() (int, int, int, int) {
 	return ph, st.Failures, st.Successes, st.HalfOpenRequests
 }
 
+// ---- the unification breaker as the discovery path uses it: through LifecycleUnifier.UnifyModels
+// ops: 'F' = RecordEndpointFailure, 'U' = UnifyModels with a live context, 'C' = UnifyModels with a context that is
+// already cancelled (a discovery round that was abandoned), tick = the breaker's stored stamp moves into the past.
+// After the history the endpoint "works again": rounds of (tick > open duration, four live calls) must close the breaker.
+func lifecycleCase(ops []int64) map[string]any {
+	cfg := unifier.DefaultConfig()
+	u, ok := unifier.NewLifecycleUnifier(cfg, vlib.QuietLogger()).(*unifier.LifecycleUnifier)
+	if !ok {
+		return map[string]any{"start_err": "NewLifecycleUnifier does not return *LifecycleUnifier"}
+	}
+	ep := &domain.Endpoint{Name: "e", URLString: "http://lifecycle.invalid:1", Type: "ollama", Status: domain.StatusHealthy}
+	url := ep.GetURLString()
+	models := []*domain.ModelInfo{{Name: "m1", Type: "llm", LastSeen: time.Now()}}
+	cb := unifier.VerifLifecycleBreaker(u, url)
+	if cb == nil {
+		return map[string]any{"start_err": "no breaker for the endpoint"}
+	}
+	b := unifierB{cb}
+	step := func(op int64) []int {
+		res := -1
+		switch {
+		case op == opFail:
+			u.RecordEndpointFailure(url, errors.New("discovery failed"))
+		case op == opUnify, op == opUnifyCancelled:
+			ctx, cancel := context.WithCancel(context.Background())
+			if op == opUnifyCancelled {
+				cancel()
+			}
+			_, err := u.UnifyModels(ctx, models, ep)
+			cancel()
+			res = 1
+			if err != nil && strings.Contains(err.Error(), "circuit breaker open") {
+				res = 0
+			}
+		default:
+			b.Tick(time.Duration(op))
+		}
+		ph, f, su, ho := b.Obs()
+		return []int{res, ph, f, su, ho}
+	}
+	var obs []int
+	for _, op := range ops {
+		obs = append(obs, step(op)...)
+	}
+	// the endpoint works again
+	rec := []int64{}
+	for round := 0; round < 3; round++ {
+		rec = append(rec, int64(cfg.CircuitBreaker.OpenDuration+1500*time.Millisecond), opUnify, opUnify, opUnify, opUnify)
+	}
+	var robs []int
+	for _, op := range rec {
+		robs = append(robs, step(op)...)
+	}
+	return map[string]any{"obs": obs, "recovery_ops": rec, "recovery_obs": robs}
+}
+
 type kind struct {
 	name    string
 	mk      func() breaker
@@ -111,9 +173,9 @@ func kinds() []kind {
 // alphabet of the exhaustive enumeration
 func alphabet(k kind) []int64 {
 	return []int64{opFail, opSucc, opAsk,
-		int64(k.timeout) * 6 / 10,              // tick < timeout (two of them exceed it)
+		int64(k.timeout) * 6 / 10,                // tick < timeout (two of them exceed it)
 		int64(k.timeout + 1500*time.Millisecond), // tick > timeout
-		int64(1300 * time.Millisecond)}          // tick > probe window (1 s), < timeout
+		int64(1300 * time.Millisecond)}           // tick > probe window (1 s), < timeout
 }
 
 // runOnce executes ops on a fresh breaker; five ints per step.
@@ -426,17 +488,17 @@ func main() {
 		corpus := [][]int64{
 			{},
 			{A}, {S}, {T, A},
-			cat(fs(thr-1), []int64{A, S, A}),                 // below threshold
+			cat(fs(thr-1), []int64{A, S, A}),                  // below threshold
 			cat(fs(thr-1), []int64{S}, fs(thr-1), []int64{A}), // success in between: must stay closed
-			cat(fs(thr), []int64{A, t, A, T, A}),             // trips, holds, admits
-			cat(fs(thr), []int64{T, A, p, A, A, A}),          // §4 #6: probes after the first one is > 1 s old
-			cat(fs(thr), []int64{T, A, A, A, A, A}),          // probe limit inside the window / N
-			cat(fs(thr), []int64{S, A}),                      // §4 #7: success recorded while open
-			cat(fs(thr), []int64{T, A, F, A, t, A, T, A}),    // failed probe re-opens and holds again
-			cat(fs(thr), []int64{T, A, S, S, A}),             // closes
-			cat(fs(thr), []int64{T, A, A, A, A, T, A, S, S}), // never stuck with exhausted half-open budget
-			cat(fs(thr), []int64{t, F, t, A, t, A}),          // hold is measured from the LAST failure
-			cat(fs(thr+3), []int64{T, A, S, F, A}),           // after closing, one failure must not re-open
+			cat(fs(thr), []int64{A, t, A, T, A}),              // trips, holds, admits
+			cat(fs(thr), []int64{T, A, p, A, A, A}),           // §4 #6: probes after the first one is > 1 s old
+			cat(fs(thr), []int64{T, A, A, A, A, A}),           // probe limit inside the window / N
+			cat(fs(thr), []int64{S, A}),                       // §4 #7: success recorded while open
+			cat(fs(thr), []int64{T, A, F, A, t, A, T, A}),     // failed probe re-opens and holds again
+			cat(fs(thr), []int64{T, A, S, S, A}),              // closes
+			cat(fs(thr), []int64{T, A, A, A, A, T, A, S, S}),  // never stuck with exhausted half-open budget
+			cat(fs(thr), []int64{t, F, t, A, t, A}),           // hold is measured from the LAST failure
+			cat(fs(thr+3), []int64{T, A, S, F, A}),            // after closing, one failure must not re-open
 		}
 		for _, h := range corpus {
 			emitHist(c, k, h, "corpus")
@@ -514,6 +576,50 @@ func main() {
 			km := kind{"unifier", func() breaker { return unifierB{unifier.NewCircuitBreaker(mcfg)} }, mcfg.OpenDuration}
 			c.Emit(map[string]any{"kind": "race-reopen", "b": "unifier", "config": "failure=1 success=1 half_open=1", "goroutines": 8, "trials": 2 * trials, "impl": raceReopen(km, 8, 2*trials)})
 			c.Count("unifier.race-reopen.min-config")
+		}
+	}
+	// ---- the unification breaker through LifecycleUnifier.UnifyModels (live and abandoned rounds)
+	{
+		ucfg := unifier.DefaultConfig().CircuitBreaker
+		over := int64(ucfg.OpenDuration + 1500*time.Millisecond)
+		under := int64(ucfg.OpenDuration) * 6 / 10
+		fails := func(n int) []int64 {
+			out := make([]int64, n)
+			for i := range out {
+				out[i] = opFail
+			}
+			return out
+		}
+		cat := func(xs ...[]int64) []int64 {
+			var out []int64
+			for _, x := range xs {
+				out = append(out, x...)
+			}
+			return out
+		}
+		lc := [][]int64{
+			cat(fails(ucfg.FailureThreshold), []int64{over, opUnifyCancelled, opUnifyCancelled, opUnifyCancelled}),
+			cat(fails(ucfg.FailureThreshold), []int64{over, opUnifyCancelled, opUnify, opUnifyCancelled, opUnifyCancelled}),
+			cat(fails(ucfg.FailureThreshold), []int64{under, opUnify, opUnifyCancelled, over, opUnifyCancelled, opFail, over, opUnifyCancelled, opUnifyCancelled}),
+			cat([]int64{opUnify, opUnifyCancelled}, fails(ucfg.FailureThreshold-1), []int64{opUnifyCancelled}, fails(ucfg.FailureThreshold), []int64{over, opUnifyCancelled, opUnifyCancelled, opUnifyCancelled, opUnifyCancelled}),
+		}
+		nl := 150
+		if thorough {
+			nl = 3000
+		}
+		for i := 0; i < nl; i++ {
+			var ops []int64
+			if r.Bool() {
+				ops = fails(ucfg.FailureThreshold)
+			}
+			for n := 3 + r.Intn(12); n > 0; n-- {
+				ops = append(ops, vlib.Pick(r, []int64{opFail, opFail, opUnify, opUnifyCancelled, opUnifyCancelled, over, under}))
+			}
+			lc = append(lc, ops)
+		}
+		for _, ops := range lc {
+			c.Emit(map[string]any{"kind": "lifecycle", "ops": ops, "impl": lifecycleCase(ops)})
+			c.Count("unifier.lifecycle")
 		}
 	}
 	L := 6
